@@ -53,7 +53,11 @@ func (s *Smma[T]) Compute(c <-chan T) <-chan T {
 		// Initial SMMA value is the SMA.
 		sma := NewSmaWithPeriod[T](s.Period)
 
-		before := <-sma.Compute(helper.Head(c, s.Period))
+		before, ok := <-sma.Compute(helper.Head(c, s.Period))
+		if !ok {
+			return
+		}
+
 		result <- before
 
 		for n := range c {
